@@ -1,6 +1,7 @@
 """C03 - Signatures are trusted only under the issuer's keys from metadata."""
 import ast
 
+from ..match import facts, Q
 from ..srcmodel import attr_chain, call_name, unparse, norm_text, walk_no_nested
 from ..cfg import cfg_of, CFG
 from ..dataflow import Origins
@@ -74,9 +75,9 @@ def r2_fallback_guard(run):
     sites = cfg.call_nodes("cert_from_instance")
     run.floor("R2", "cert_from_instance sites in _check_signature", len(sites), 1)
     for nd, c in sites:
-        gs = {(unparse(e), pol) for e, pol, _ in cfg.guards(nd.id)}
-        ok = ("certs", False) in gs and \
-            ("self.only_use_keys_in_metadata", False) in gs
+        gs = facts(cfg, nd.id)
+        ok = Q("certs", False) in gs and \
+            Q("self.only_use_keys_in_metadata", False) in gs
         run.check(ok, "R2", fi.qual + "::embedded-cert-fallback",
                   "guarded by `not certs and not self.only_use_keys_in_metadata`",
                   "embedded certificates are used under guards %s: with the "
@@ -116,7 +117,7 @@ def r3_empty_rejects(run):
             facts = [(unparse(e), p) for e, p in
                      __import__("sa.cfg", fromlist=["atoms"]).atoms(
                          bn.ast, bn.kind == "true")]
-            if ("certs", True) in facts:
+            if Q("certs", True) in facts:
                 other = [x for x in cfg.succ[t.id] if x != b and
                          cfg.nodes[x].kind in ("true", "false")]
                 if other and all(only_raises_from(cfg, o) for o in other):
@@ -157,8 +158,8 @@ def r4_issuer_provenance(run):
         s = nd.ast
         if isinstance(s, ast.Assign) and "issuer.text" in unparse(s.value) and \
                 "item." not in unparse(s.value):
-            gs = {(unparse(e), p) for e, p, _ in cfg.guards(nd.id)}
-            run.check(("_issuer is None", True) in gs, "R4",
+            gs = facts(cfg, nd.id)
+            run.check(Q("_issuer is None", True) in gs, "R4",
                       fi.qual + "::issuer-fallback-guard",
                       "parameter issuer used only when the element has none",
                       "issuer parameter overrides the element's own Issuer "
